@@ -366,6 +366,9 @@ _VIEW_CACHE: dict = {}
 NOTES: set = set()
 
 
+VIEW_NORMALIZER = [None]  # set by the VC generator: (term, state) -> heap-read-normalised term
+
+
 def seq_view(val, st: St) -> SeqView:
     """(len, at) view of an iterable value; facts must be assumed by the caller."""
     h = st.heap
@@ -398,9 +401,14 @@ def seq_view(val, st: St) -> SeqView:
         comp = "dh" if k == "dict" else "sh"
         size = h.c["dn"][r] if k == "dict" else h.c["sn"][r]
         ety = ty[1]
-        ckey = (r.get_id(), h.c[comp].get_id(), size.get_id())
+        # one enumeration per (membership, size) of the container AS READ THROUGH the heap: stores / havocs of other,
+        # provably distinct references do not start a new enumeration (reads normalised by the heap rewriter)
+        mem_n, size_n = h.c[comp][r], size
+        if VIEW_NORMALIZER[0] is not None:
+            mem_n, size_n = VIEW_NORMALIZER[0](mem_n, st), VIEW_NORMALIZER[0](size_n, st)
+        ckey = (r.get_id(), mem_n.get_id(), size_n.get_id())
         if ckey not in _VIEW_CACHE:
-            _VIEW_CACHE[ckey] = (z3.Function(smt.fresh_name("enum"), z3.IntSort(), V), z3.Function(smt.fresh_name("enum_idx"), V, z3.IntSort()), r, h.c[comp], size)
+            _VIEW_CACHE[ckey] = (z3.Function(smt.fresh_name("enum"), z3.IntSort(), V), z3.Function(smt.fresh_name("enum_idx"), V, z3.IntSort()), r, mem_n, size_n)
         enum_f, idx_f = _VIEW_CACHE[ckey][:2]
         i = z3.Int("ei")
         kx = z3.Const("ek", V)
